@@ -436,6 +436,72 @@ pub fn check_build(flags: u16, opcode: u8, rcode: u16, id: u16, n: [usize; 4]) -
     out
 }
 
+/// Counts written for messages that carry EDNS: the packet's OPT (set through opt_mut or
+/// parsed) and / or OPT records placed in the additional section by hand, among ordinary
+/// records. Whatever the writer decides to emit, the four counts in the header must be the
+/// numbers of entries that follow, for both serialisers, as built and after a parse.
+pub fn check_build_edns(pattern: &[u8], with_opt: bool, n_answers: usize) -> Vec<Finding> {
+    let case = json!({"kind": "build-edns", "pattern": pattern, "with_opt": with_opt, "answers": n_answers});
+    let mut p = RefPacket { id: 0x0e08, flags: F_QR, ..Default::default() };
+    if with_opt {
+        p.opt = Some(RefOpt { udp: 1232, version: 0, options: vec![(10, crate::refmodel::B(vec![1, 2, 3, 4, 5, 6, 7, 8]))] });
+    }
+    let r = crate::refmodel::packet::rr("a", typed(1, vec![crate::refmodel::schema::Val::U32(1)]));
+    for _ in 0..n_answers {
+        p.answers.push(r.clone());
+    }
+    for (i, k) in pattern.iter().enumerate() {
+        if *k == 0 {
+            p.additional.push(r.clone());
+        } else {
+            p.additional.push(RefRR { name: crate::refmodel::RefName::root(), class: 1, cache_flush: false, ttl: 0, rdata: RefRData::StrayOpt(RefOpt { udp: 512 + i as u16, version: 0, options: if *k == 2 { vec![(3, crate::refmodel::B(b"ns".to_vec()))] } else { vec![] } }) });
+        }
+    }
+    let judge = |bytes: &[u8], what: &str, bad: &mut Vec<(String, String)>| match crate::refmodel::wire::walk(bytes) {
+        Err(e) => bad.push((format!("{}|unwalkable", what), format!("{}: output does not walk ({:?}): {}", what, e, crate::engine::truncate(&crate::engine::hex(bytes), 300)))),
+        Ok(w) => {
+            if w.end != bytes.len() {
+                bad.push((format!("{}|counts-smaller-than-content", what), format!("{}: header counts {:?} but {} bytes follow the last counted entry: {}", what, w.counts, bytes.len() - w.end, crate::engine::truncate(&crate::engine::hex(bytes), 300))));
+            }
+            if w.counts[1] as usize != n_answers {
+                bad.push((format!("{}|ancount", what), format!("{}: ANCOUNT {} for {} answers", what, w.counts[1], n_answers)));
+            }
+        }
+    };
+    let res = guarded(|| -> Result<Vec<(String, String)>, String> {
+        let mut bad = Vec::new();
+        let l = to_lib(&p)?;
+        let plain = l.build_bytes_vec().map_err(|e| format!("{:?}", e))?;
+        let comp = l.build_bytes_vec_compressed().map_err(|e| format!("{:?}", e))?;
+        judge(&plain, "plain", &mut bad);
+        judge(&comp, "compressed", &mut bad);
+        let mut cur = std::io::Cursor::new(Vec::new());
+        l.write_compressed_to(&mut cur).map_err(|e| format!("{:?}", e))?;
+        judge(&cur.into_inner(), "write_compressed_to", &mut bad);
+        let mut v = Vec::new();
+        l.write_to(&mut std::io::Cursor::new(&mut v)).map_err(|e| format!("{:?}", e))?;
+        judge(&v, "write_to", &mut bad);
+        if plain.len() >= 12 && comp.len() >= 12 && plain[..12] != comp[..12] {
+            bad.push(("writers-disagree".into(), format!("plain header {} compressed header {}", crate::engine::hex(&plain[..12]), crate::engine::hex(&comp[..12]))));
+        }
+        // the same message after a parse
+        if let Ok(again) = Packet::parse(&plain) {
+            if let Ok(b) = again.build_bytes_vec() {
+                judge(&b, "parsed|plain", &mut bad);
+            }
+            if let Ok(b) = again.build_bytes_vec_compressed() {
+                judge(&b, "parsed|compressed", &mut bad);
+            }
+        }
+        Ok(bad)
+    });
+    match res {
+        Err(pn) => vec![finding(format!("C08|build-edns|{}", pn.sig()), format!("{:?}", pn), case)],
+        Ok(Err(e)) => vec![finding("C08|build-edns|error", e, case)],
+        Ok(Ok(bad)) => bad.into_iter().map(|(t, d)| finding(format!("C08|build-edns|{}", t), d, case.clone())).collect(),
+    }
+}
+
 pub fn check_reser(word: u16, id: u16) -> Vec<Finding> {
     let case = json!({"kind": "reser", "word": word, "id": id});
     let h = header(id, word, [0; 4]);
@@ -771,6 +837,26 @@ pub fn run(ctx: &Ctx) {
     t.outcome("build");
     ctx.merge(t);
     ctx.space("build: 128 flag subsets x 5 opcodes x 12 rcodes, and {0,1,2}^4 section sizes", n, "complete");
+    {
+        let mut t = Tally::default();
+        let mut n = 0u64;
+        let mut pats: Vec<Vec<u8>> = Vec::new();
+        let mut b = Vec::new();
+        crate::engine::for_each_string_upto(&[0u8, 1, 2], 4, &mut b, &mut |x| pats.push(x.to_vec()));
+        for pat in &pats {
+            for with_opt in [false, true] {
+                for na in [0usize, 1] {
+                    t.evals += 1;
+                    t.nontrivial += 1;
+                    n += 1;
+                    ctx.violations(check_build_edns(pat, with_opt, na));
+                }
+            }
+        }
+        t.outcome("build");
+        ctx.merge(t);
+        ctx.space("counts with EDNS: additional sections of <= 4 entries over {ordinary record, hand-placed OPT record, hand-placed OPT with an option} x packet OPT set / unset x 0..=1 answers; both serialisers, a writer, and again after a parse: the header counts are the numbers of entries that follow", n, "complete");
+    }
     ctx.sample(json!({"kind": "parse", "word": 0x8180, "id": 0x1234}));
     ctx.sample(json!({"kind": "peek", "word": 0x7bff, "id": 1, "counts": [0, 1, 65535, 0]}));
     ctx.sample(json!({"kind": "algebra", "a": F_QR | F_AD, "b": F_AD | F_CD, "opcode": 5, "rcode": 9}));
@@ -805,6 +891,10 @@ pub fn replay(case: &Value) -> Vec<Finding> {
             g("b") as u16,
         ),
         "algebra" => check_algebra(g("a") as u16, g("b") as u16, g("opcode") as u8, g("rcode") as u16, Some(&subs)),
+        "build-edns" => {
+            let pat: Vec<u8> = case["pattern"].as_array().map(|a| a.iter().map(|x| x.as_u64().unwrap_or(0) as u8).collect()).unwrap_or_default();
+            check_build_edns(&pat, case["with_opt"].as_bool().unwrap_or(false), case["answers"].as_u64().unwrap_or(0) as usize)
+        }
         "build" => {
             let c: Vec<usize> = case["n"].as_array().map(|a| a.iter().map(|x| x.as_u64().unwrap_or(0) as usize).collect()).unwrap_or_default();
             check_build(g("flags") as u16, g("opcode") as u8, g("rcode") as u16, g("id") as u16, [c[0], c[1], c[2], c[3]])
